@@ -4,14 +4,17 @@
   compositional validator.   No Mathlib.
 
   Ported code (line numbers of /repo at the pinned commit + fix commits):
-    xmlschema/resources/xml_loader.py:217-283   _lazy_iterparse   (namespace stack, popAtEnd = true)
-    xmlschema/resources/xml_loader.py:285-329   _parse            (namespace stack, popAtEnd = false: the
-                                                                   pinned eager loader has no pop in its 'end' branch)
-    xmlschema/resources/xml_resource.py:536-580 iter              (lazy branch)
-    xmlschema/resources/xml_resource.py:591-657 iter_depth        (modes 1..5, ancestors tracking)
-    xmlschema/resources/xml_resource.py:659-724 iterfind          (level logic, select_all paths)
-    xmlschema/validators/schemas.py:1326-1391   iter_errors       (loop over iter_depth(mode=4) / get_element /
-                                                                   skip rule / root with max_depth = lazy depth)
+    xmlschema/resources/xml_loader.py:220-283   _lazy_iterparse   (namespace stack: `nsStep true`)
+    xmlschema/resources/xml_loader.py:285-333   _parse            (namespace stack: `parseStep`; since commit
+                                                                   6d25df9 its 'end' branch pops too)
+    xmlschema/resources/xml_resource.py:539-583 iter              (lazy branch)
+    xmlschema/resources/xml_resource.py:593-659 iter_depth        (modes 1..5, ancestors tracking)
+    xmlschema/resources/xml_resource.py:661-726 iterfind          (level logic, select_all paths)
+    xmlschema/validators/schemas.py:1285-1400   iter_errors       (loop over iter_depth(mode=4) / get_element /
+                                                                   skip rule / the chunk's own xmlns declarations
+                                                                   pushed (1374-1376, commit c3a1309) / root with
+                                                                   max_depth = lazy depth / merge of the identity
+                                                                   counters (1391-1398, commit 851aaad))
     xmlschema/validators/groups.py:993,1042-1056 max_depth cut
 -/
 namespace XsVerif.Lazy
@@ -90,8 +93,9 @@ def pushRecord (s : NsSt) (i : Nat) : NsSt :=
       let m := updAll top s.pending
       { s with stack := m :: top :: rest, pending := [], out := s.out ++ [(i, m)] }
 
-/-- One parser event.  `popAtEnd = true`: `_lazy_iterparse` (xml_loader.py:262-266 pops in the 'end' branch);
-    `popAtEnd = false`: the pinned `_parse` (xml_loader.py:325-326: the 'end' branch only counts levels). -/
+/-- One parser event.  `popAtEnd = true`: `_lazy_iterparse` (xml_loader.py:264-268 pops in the 'end' branch).
+    `popAtEnd = false` is NOT a loop of the current code: it is `_parse` as it was before commit 6d25df9 (no pop
+    in the 'end' branch); the driver prints it only so that a recurrence of that defect is named in the replay. -/
 def nsStep (popAtEnd : Bool) (s : NsSt) : Ev → NsSt
   | .startNs p u => { s with pending := s.pending ++ [(p, u)] }
   | .endNs => { s with endNs := true }
@@ -109,33 +113,28 @@ def inScopeF (ctx : NsMap) : List Tree → List (Nat × NsMap)
   | t :: ts => inScope ctx t ++ inScopeF ctx ts
 end
 
+/-- The eager loop `_parse` (xml_loader.py:285-333) as it is now, ported branch by branch:
+    'start' (312-320): pending pop, push a copy for the pending declarations, record;
+    'start-ns' (321-322); 'end-ns' (323-324); 'end' (325-330): pending pop (added by commit 6d25df9). -/
+def parseStep (s : NsSt) : Ev → NsSt
+  | .start i _ => pushRecord (popIf s) i
+  | .startNs p u => { s with pending := s.pending ++ [(p, u)] }
+  | .endNs => { s with endNs := true }
+  | .stop _ _ => popIf s
+
 /-- namespace maps assigned by the lazy loader / the eager loader to the elements of `t` -/
 def lazyNsmaps (t : Tree) : Option (List (Nat × NsMap)) :=
   let s := nsRun true NsSt.init (events t)
   if s.fail then none else some s.out
 
 def eagerNsmaps (t : Tree) : Option (List (Nat × NsMap)) :=
-  let s := nsRun false NsSt.init (events t)
+  let s := (events t).foldl parseStep NsSt.init
   if s.fail then none else some s.out
 
-/- Where the pinned eager loop (`popAtEnd = false`) loses a pop: `tailFlag t` = the value of `end_ns` after the
-   events of `t`; the loop is right on `t` iff no element with declarations closes while `end_ns` is still set
-   by its last child (`eagerSafe`). -/
-mutual
-def tailFlag : Tree → Bool
-  | .node _ _ ds cs => !ds.isEmpty || tailFlagF false cs
-def tailFlagF (f0 : Bool) : List Tree → Bool
-  | [] => f0
-  | t :: ts => tailFlagF (tailFlag t) ts
-end
-
-mutual
-def eagerSafe : Tree → Bool
-  | .node _ _ ds cs => (ds.isEmpty || !tailFlagF false cs) && eagerSafeF cs
-def eagerSafeF : List Tree → Bool
-  | [] => true
-  | t :: ts => eagerSafe t && eagerSafeF ts
-end
+/-- `_parse` before commit 6d25df9 (finding C06-F4, fixed): diagnostic only, see `nsStep`. -/
+def unpoppedNsmaps (t : Tree) : Option (List (Nat × NsMap)) :=
+  let s := nsRun false NsSt.init (events t)
+  if s.fail then none else some s.out
 
 /-! ## 3. lazy iteration loops (only 'start' / 'end' events reach them) -/
 
@@ -311,9 +310,12 @@ def chunkErrs (v : Val D E) (pick : Option D → Tree → Option D) (k : Nat) (p
     | some d' => eagerT v p.1 d' p.2.2
     | none => []
 
-/-- What the lazy driver does with a chunk (schemas.py:1362-1370): the declaration is looked up
+/-- What the lazy driver does with a chunk (schemas.py:1363-1371): the declaration is looked up
     *statically* (`get_element(tag, '/root/*…')`); without a match an element carrying xsi:type is
-    validated against a freshly created xs:anyType element, any other chunk is skipped. -/
+    validated against a freshly created xs:anyType element, any other chunk is skipped.
+    The chunk is then validated by the same `XsdElement.raw_decode` as in the eager run and — since commit
+    c3a1309 (schemas.py:1374-1376) — with its own namespace declarations in scope, as in the eager run where
+    the parent group pushes them: this is what allows one `Val` for both runs. -/
 def lazyPick (static created : Tree → Option D) : Option D → Tree → Option D :=
   fun _ c => match static c with
     | some d => some d
@@ -322,7 +324,7 @@ def lazyPick (static created : Tree → Option D) : Option D → Tree → Option
 /-- The governing declaration (what the eager run uses). -/
 def govPick : Option D → Tree → Option D := fun d _ => d
 
-/-- Lazy validation at lazy depth `k ≥ 1` (schemas.py:1326-1391): chunks in document order (selector
+/-- Lazy validation at lazy depth `k ≥ 1` (schemas.py:1334-1400): chunks in document order (selector
     `iter_depth(mode=4)`), then the pruned root with `max_depth = k`, then `_validate_references`
     (IDREFs first, then the key references that are still enabled: those of the root, which the
     depth-limited root run does not check itself, elements.py:854-866). -/
